@@ -6,13 +6,16 @@ W="$1"; C="$2"; D="$3"; FULL="${4:-}"
 cd "$W" || exit 2
 export CARGO_NET_OFFLINE=true
 OUT=seed/confirm.txt; : > $OUT
-git apply --check seed/patch.diff 2>/dev/null && git apply seed/patch.diff
+# start from HEAD and apply at the recorded line numbers (git apply relocates a hunk by context when the lines do not
+# match, which mis-applies a patch a second time to an identical neighbouring function — seen with C36-2 and C06-2)
+git checkout -q -- . && git apply seed/patch.diff || exit 2
 mkdir -p $C/tests; cp seed/demo/$D.rs $C/tests/
 echo "demo WITH change: $(cargo test -p $C --test $D --offline 2>&1 | grep '^test result' | tr '\n' ' ')" >> $OUT
-git apply -R seed/patch.diff
+git checkout -q -- .
 echo "demo WITHOUT change: $(cargo test -p $C --test $D --offline 2>&1 | grep '^test result' | tr '\n' ' ')" >> $OUT
 rm -f $C/tests/$D.rs; rmdir $C/tests 2>/dev/null
-git apply seed/patch.diff
+git apply seed/patch.diff || exit 2
+git diff -- . ':!seed' | diff -q - seed/patch.diff >/dev/null || echo "WARNING: worktree diff differs from seed/patch.diff" >> $OUT
 if [ -n "$FULL" ]; then
   cargo test --workspace --no-fail-fast --offline > seed/existing_tests.log 2>&1
   P=$(grep "^test result" seed/existing_tests.log | awk '{p+=$4} END {print p}')
